@@ -8,51 +8,88 @@ head = "## Appendix B. Seeded property-breaking changes and which checks catch t
 i = s.find(head)
 if i >= 0:
     s = s[:i]
+import json, glob, re
+rows = []
+for d in sorted(glob.glob("/verif/seeded/*/")):
+    m = json.load(open(d + "meta.json"))
+    w = re.search(r"-w(\d+)m", m["id"])
+    wave = "1" if "-m" in m["id"] else (w.group(1) if w else "own")
+    r1 = m.get("round1", {}).get("detected_by")
+    final = m.get("detected_by", [])
+    first = r1 if r1 is not None else m.get("first_run_detected_by", final)
+    stale = "has no faithful counterpart" in m.get("note", "")
+    rows.append((wave, m["breaks_property"], first, final, stale))
+stats = "| wave | changes | caught at first evaluation (any check / the property's own check) | caught by the final framework (any / own) |\n|---|---|---|---|\n"
+for w in ["1", "2", "3", "4", "5", "own"]:
+    rs = [r for r in rows if r[0] == w]
+    if not rs:
+        continue
+    stats += "| %s | %d | %d / %d | %d / %d |\n" % (w, len(rs), sum(1 for r in rs if r[2]), sum(1 for r in rs if r[1] in r[2]),
+                                                  sum(1 for r in rs if r[3]), sum(1 for r in rs if r[1] in r[3]))
+n_all = len(rows)
 text = head + '''
-68 changes to ts-rs were produced by fresh sub-agents that saw **only the text of one property and
-a scratch worktree** (nothing from /verif). Each was asked for two realistic changes that break the
-property, still compile and pass the repository's 471 tests, and need something specific to
-manifest. I kept a change only after confirming all of that myself (`tools/trial.py verify`: apply
-in a scratch worktree, run the suite, run the author's demonstration without and with the change);
-all 68 were confirmed. They live in `seeded/<id>/` (`patch.diff`, `demo.rs`, `notes.md`,
-`meta.json` with what was run and every check's verdict). Trials run the registered quick commands
-inside a private mount namespace (`tools/partrial.py`: a copy of /repo with the patch applied is
-bind-mounted over /repo, a copy of /verif over /verif), so the real /repo is never modified.
+%d changes to ts-rs were produced by fresh sub-agents that saw **only the text of one property and
+a scratch worktree** (nothing from /verif; from wave 5 on also one line per earlier change for that
+property, with the instruction to find a different mechanism). Each was asked for two realistic
+changes that break the property, still compile and pass the repository's 471 tests, and need something
+specific to manifest. I kept a change only after confirming all of that myself (`tools/trial.py
+verify`: apply in a scratch worktree, run the suite, run the author's demonstration without and with
+the change). They live in `seeded/<id>/` (`patch.diff`, `demo.rs`, `notes.md`, `meta.json` with what
+was run and every check's verdict; `patch_original.diff` where a later repair of ts-rs made a hand
+port of the patch necessary). Trials run the registered quick commands inside a private mount
+namespace (`tools/partrial.py`: a copy of /repo with the patch applied is bind-mounted over /repo, a
+copy of /verif over /verif), so the real /repo is never modified. One further change (`C16-own1`) is
+mine, made to exercise the crate-rename corpus.
 
-Three waves, so that detection is measured on changes the checks were **not** tuned on:
+Waves, so that detection is measured on changes the checks were **not** tuned on ("first evaluation" =
+the framework as it stood when the wave was produced):
 
-* **wave 1** (34 changes, all 17 properties, against the first complete framework): 23 caught at
-  first evaluation (13 by the property's own check), 11 missed. Every miss named a hole in an
+''' % n_all + stats + '''
+* **wave 1** (all 17 properties, against the first complete framework): every miss named a hole in an
   alphabet (same type used twice in one container, several flattened fields, attributes combined on
   one field, `concrete` split over attributes, const defaults, dot-directories, inline form of
   library types, wrappers around flattened types, representation-key triples, doc text naming a
   sibling type …); the corpora were extended *generically* (families, not the single failing input).
-* **wave 2** (20 changes, the 10 weakest properties, after that strengthening): 14 caught at first
-  evaluation, 6 missed (type-override fields with non-identifier keys, `concrete` + default on one
-  parameter, container bound to the parameter of an inlined generic / aliases, wrapped map keys,
-  const before type parameters, variant-level `type` override) - again closed by extending families.
-* **wave 3** (14 changes, the history/schedule/attribute properties, on the repaired tree with the
-  rewritten merge): 13 caught at first evaluation (one only after the scheduler learnt to turn
-  "the same schedule gives another result the second time" into a finding instead of a replay
-  divergence), 1 missed (container `type`/`as` + serde `rename`; C10 slots added).
+* **wave 2** (the 10 weakest properties, after that strengthening): misses were type-override fields
+  with non-identifier keys, `concrete` + default on one parameter, container bound to the parameter of
+  an inlined generic / aliases, wrapped map keys, const before type parameters, variant-level `type`
+  override - again closed by extending families.
+* **wave 3** (the history/schedule/attribute properties, on the repaired tree with the rewritten
+  merge): one change was caught only after the scheduler learnt to turn "the same schedule gives
+  another result the second time" into a finding instead of a replay divergence; one miss (container
+  `type`/`as` + serde `rename`; C10 slots added).
+* **wave 4** (all 17 properties, asked for less-travelled mechanisms; held-out measurement of the
+  framework after three rounds of strengthening): 28 of 34 caught at first evaluation, 19 by the
+  property's own check. The 6 misses: a file shared under two spellings that only `..` resolution
+  makes equal (C03), `absolute()` resolving through the file system when the path exists - needs a
+  symbolic link in the base directory (C06, C08), `concrete` split over attributes on an *enum*
+  (C07), `as` + `inline` on the newtype payload of an internally tagged enum (C14), a write fault on
+  a shared file *after* another type was exported into it (C17). Closed by: a second spelling of
+  `s.ts` among the placements and in the universe, a symlinked base / export directory, enum twins of
+  every `concrete` case, `as = U` × inline × representation, the obstacle "existing shared target
+  replaced by a directory". The 9 changes caught only by a neighbouring check led to further
+  extensions (serde entries behind an unsupported nested-form entry and a type override that says the
+  truth in the `main` corpus; instantiations of a shared-file generic with foreign arguments in C05/C06;
+  generics with a hidden parameter in the graph corpus; entry-point mixes in C13; the naming branches of
+  `format_field` in C09).
 
-With the final framework (full re-run of all 65 re-runnable changes, `.build/partrial_final.log`)
-every change is caught and no check ended in a machinery error; 63 of 65 are caught by the check
-of the property they were written against. The two others are caught by neighbouring checks
-because the change, as it manifests, does not violate the target property's own clause: C13-m1
-after its port to the rewritten merge is deterministic but leaves import names unsorted (a C05
-matter); C13-w3m2 makes the result depend on the entry point used (C06's clause; C13 enumerates
-orders and schedules of `export_all`). Three wave-1 changes modify the
-textual merge that fix 0e0de93 replaced and cannot be applied to later trees; their verdicts are
-from the tree they were written for (C15-m2 was *not* caught there: its effect was inside the
-population the then-open finding F03 absorbed - the reason F02-F04 were repaired rather than
-kept as known findings). No check raised an alarm for a property the change does not break that I
-could not trace to a real consequence of the change (the multi-property rows are genuine: e.g. a
-lost dependency breaks imports (C03), the file set (C11) and the parse of the importing module).
+With the final framework every re-runnable change is caught (`.build/partrial_final2.log`: own check +
+every check that ever reported the change, re-run on the final tree) and no check ended in a machinery
+error. Changes caught only by neighbouring checks are those where the change, as it manifests, does not
+violate the target property's own clause (e.g. C13-m1 after its port is deterministic but leaves import
+names unsorted - a C05 matter; C04-w4m1 registers a type before the write succeeded - C17's clause;
+C13-w3m2 / C13-w4m2 depend on the entry point used - C06's clause until C13 learnt entry-point mixes).
+Three wave-1 changes modify the textual merge that fix 0e0de93 replaced and cannot be applied to later
+trees; their verdicts are from the tree they were written for (C15-m2 was *not* caught there: its effect
+was inside the population the then-open finding F03 absorbed - the reason F02-F04 were repaired rather
+than kept as known findings). No check raised an alarm for a property the change does not break that I
+could not trace to a real consequence of the change (the multi-property rows are genuine: e.g. a lost
+dependency breaks imports (C03), the file set (C11) and the parse of the importing module).
 
-Side findings reported by the sub-agents on the unchanged tree (all reproduced by the machinery
-after the alphabets were extended, then repaired): F20 (unbalanced parentheses), F21 (doc text
-starting with `/`), F22 (object merge rewriting doc text).
+Side findings reported by the sub-agents on the unchanged tree (all reproduced by the machinery after
+the alphabets were extended, then repaired): F20 (unbalanced parentheses), F21 (doc text starting with
+`/`), F22 (object merge rewriting doc text), F26 (parentheses inside documentation counted by the
+unwrapping scan), F27 (`.js` stripped from import paths without `import-esm`).
 
 Bold = the property's own check.
 
